@@ -16,8 +16,14 @@ pub fn sign_cap(n: usize) -> u64 {
     (n as u64) * 2 * 17 * 60
 }
 
-/// one ntru_gen attempt draws ≈ 8192 * ~20 bytes; allow 200 attempts
-pub const KEYGEN_CAP: u64 = 8192 * 24 * 200;
+/// Bounded liveness of keygen. One ntru_gen attempt draws ≈ 8192 * ~24 bytes and
+/// succeeds with probability ≈ 1/13 (Falcon-512) resp. ≈ 1/24 (Falcon-1024)
+/// (measured: 48 seeds each, maxima 47 and 98 attempts), so the number of
+/// attempts is geometric; 3000 attempts are exceeded with probability < e^-120
+/// on a correct tree. (A first bound of 200 attempts was a false-alarm source:
+/// (23/24)^200 = 2e-4 per Falcon-1024 keygen, found by the multi-seed soak.)
+pub const KEYGEN_MAX_ATTEMPTS: u64 = 3000;
+pub const KEYGEN_CAP: u64 = 8192 * 30 * KEYGEN_MAX_ATTEMPTS;
 
 #[derive(Clone, Debug, Default)]
 pub struct OpTrace {
